@@ -12,3 +12,4 @@ for d in seeded/$ID-*; do
   echo "$d: $( [ $RC -gt 0 ] && echo CAUGHT || echo MISSED ) :: $(echo "$OUT" | tail -1)"
   { [ $RC -gt 0 ] && echo "caught by ./check $ID --tier $TIER" || echo "MISSED by ./check $ID --tier $TIER"; echo "$OUT"; } > $d/result.txt
 done
+./check $ID --tier $TIER >/dev/null 2>&1   # refresh the evidence file on the unchanged tree
